@@ -145,13 +145,96 @@ theorem dropStreamRef_woken {s : Streams} {k : Nat} (h1 : (s.stream k).refCount 
   rw [hcond]
   simp only [Bool.false_eq_true, if_false]
   -- inside `transition`: `maybe_cancel` wakes, the rest are steps
-  unfold Streams.transition
-  simp only
   have hw : TaskWoken s1 (s1.maybeCancel k) :=
     maybeCancel_woken (by rw [hst1]; simp [h1]) (by rw [hst1]; exact hc) (by rw [hst1]; exact hr)
   have hsm : Step none s1 (s1.maybeCancel k) := maybeCancel_acc k (Step.refl _ _)
-  refine (TaskWoken.after hstep1 hw hsm.wakes).before (hstep1.wakes.trans hsm.wakes) ?_
-  have hc2 := @cancelPromises_acc none (s1.maybeCancel k)
-  step_grind
+  have hw2 : TaskWoken s (s1.maybeCancel k) := TaskWoken.after hstep1 hw hsm.wakes
+  have hwk : s.wakes <+: (s1.maybeCancel k).wakes := hstep1.wakes.trans hsm.wakes
+  unfold Streams.transition
+  simp only
+  split
+  · refine hw2.before hwk ?_
+    refine transitionAfter_acc _ _ ?_
+    refine cancelPromises_acc _ ?_
+    step_grind
+  · exact hw2.before hwk (transitionAfter_acc _ _ (Step.refl _ _))
+
+/-- the stream has buffered DATA but not one octet of send capacity: nothing of it can be written -/
+def NoCapacity (s : Streams) (k : Nat) : Prop :=
+  (s.stream k).sendFlow.available.gtUsize 0 = false ∧ (s.stream k).bufferedSendData ≠ 0
+
+/-- `Prioritize::send_data` up to the point where it decides whether to schedule the stream -/
+def sdPrefix (s : Streams) (k len : Nat) (eos : Bool) : Streams :=
+  let s := s.modStream k fun st => { st with bufferedSendData := st.bufferedSendData + len }
+  let st := s.stream k
+  let s :=
+    if st.requestedSendCapacity < st.bufferedSendData then
+      (s.modStream k fun st => { st with requestedSendCapacity := min st.bufferedSendData U32_MAX }).tryAssignCapacity k
+    else s
+  if eos then
+    let s := match (s.stream k).state.sendClose with
+      | some st' => s.modStream k fun st => { st with state := st' }
+      | none => s.panic "send_close: unexpected state"
+    s.reserveCapacity k 0
+  else s
+
+theorem prioSendData_eq {s : Streams} {k len : Nat} {eos : Bool} (h1 : ¬ len > Generated.Consts.MAX_WINDOW_SIZE)
+    (h2 : (s.stream k).state.isSendStreaming = true) :
+    s.prioSendData k len eos =
+      (if ((sdPrefix s k len eos).stream k).sendFlow.available.gtUsize 0 || ((sdPrefix s k len eos).stream k).bufferedSendData == 0 then
+        ((sdPrefix s k len eos).queueFrame k (.data len eos), .ok ())
+      else
+        ((sdPrefix s k len eos).modStream k fun st => { st with pendingSend := st.pendingSend ++ [.data len eos] }, .ok ())) := by
+  unfold Streams.prioSendData sdPrefix
+  simp only [h1, if_false, h2, Bool.not_true, Bool.false_eq_true]
+  rfl
+
+theorem sdPrefix_step (s : Streams) (k len : Nat) (eos : Bool) : Step none s (sdPrefix s k len eos) := by
+  unfold sdPrefix; step_grind
+theorem sdPrefix_ps (s : Streams) (k len : Nat) (eos : Bool) : PS s (sdPrefix s k len eos) := by
+  unfold sdPrefix; tear_grind
+
+/-- **`Prioritize::send_data`** that succeeds on a stream that may send: the connection task is woken —
+    unless the stream has no capacity at all (then the frame only joins the stream's own queue, and
+    the connection learns about it when capacity arrives: `try_assign_capacity` schedules the stream) -/
+theorem prioSendData_woken {s : Streams} {k len : Nat} {eos : Bool}
+    (hok : (s.prioSendData k len eos).2 = .ok ()) (hr : (s.stream k).isSendReady = true) :
+    TaskWoken s (s.prioSendData k len eos).1 ∨ NoCapacity (s.prioSendData k len eos).1 k := by
+  by_cases h1 : len > Generated.Consts.MAX_WINDOW_SIZE
+  · unfold Streams.prioSendData at hok; simp [h1] at hok
+  · by_cases h2 : (s.stream k).state.isSendStreaming = true
+    · rw [prioSendData_eq h1 h2]
+      have hstep := sdPrefix_step s k len eos
+      have hr3 : ((sdPrefix s k len eos).stream k).isSendReady = true := by
+        rw [(sdPrefix_ps s k len eos).isSendReady]; exact hr
+      split
+      · exact Or.inl (.after hstep (queueFrame_woken _ hr3) (queueFrame_acc (cx := none) k _ (Step.refl _ _)).wakes)
+      · next hcond =>
+        refine Or.inr ?_
+        simp only [Bool.or_eq_true, not_or, Bool.not_eq_true, beq_eq_false_iff_ne] at hcond
+        cases hg : (sdPrefix s k len eos).store.get? k with
+        | none => simp [Streams.stream, hg] at hcond
+        | some a =>
+          rw [stream_eq_of_get? hg] at hcond
+          unfold NoCapacity
+          simp only
+          rw [stream_modStream_same _ hg rfl]
+          exact hcond
+    · unfold Streams.prioSendData at hok; simp [h1, h2] at hok
+
+/-- **`StreamRef::send_data`** (the handle operation) -/
+theorem refSendData_woken {s : Streams} {k len : Nat} {eos : Bool}
+    (hok : (s.refSendData k len eos).2 = .ok ()) (hr : (s.stream k).isSendReady = true) :
+    TaskWoken s (s.refSendData k len eos).1 ∨ NoCapacity (s.refSendData k len eos).1 k := by
+  unfold Streams.refSendData Streams.transition at hok ⊢
+  simp only at hok ⊢
+  rcases prioSendData_woken hok hr with h | h
+  · exact Or.inl (h.before (prioSendData_acc (cx := none) k len eos (Step.refl _ _)).wakes (transitionAfter_acc _ _ (Step.refl _ _)))
+  · refine Or.inr ?_
+    have hnc : ((s.prioSendData k len eos).1.stream k).isClosed = false := by
+      unfold Stream.isClosed; simp [h.2]
+    unfold NoCapacity Streams.stream at h ⊢
+    rw [transitionAfter_store_of_not_closed hnc]
+    exact h
 
 end H2V.Lemmas.ConnWakeP
